@@ -489,3 +489,192 @@ def targets():      # noqa: F811
     # comes from that element's that parameter
     from . import c12
     return _targets_before_format() + [target_format_text(), c12.target_parameters_table()]
+
+
+
+def target_add_noise():
+    """mock_data._add_noise (what `<CIRCUIT_n:noise=p,seed=s>` reaches): the generator is seeded with the given seed truncated to 32
+    bits WHENEVER a seed is given -- whatever its value, 0 included -- and left unseeded only for None; the real part of the noise
+    is the first draw, the imaginary part the second, both normal(0, noise/100*|Z|), added to the ideal impedances; frequencies
+    are those of the input.  Same arguments => same data set, which is what makes the CLI output equal to the API result.
+    The seed is a symbolic integer: `&` / `%` build terms, every other question about it (truth value, comparison) is answered both ways."""
+    MOCK = "mock_data"
+
+    def run(sess: Session):
+        outcomes = set()
+        for given, answer, label_given in itertools.product((True, False), (True, False), (True, False)):
+            asked, made, draws, built = [], [], [], []
+
+            class Seed:
+                def __and__(self, other):
+                    return ("seed&", other)
+                __rand__ = __and__
+
+                def __mod__(self, other):
+                    return ("seed%", other)
+
+                def __bool__(self):
+                    asked.append("truth")
+                    return answer
+
+                def _cmp(self, other):
+                    asked.append(("compared with", other))
+                    return answer
+                __eq__ = __lt__ = __le__ = __gt__ = __ge__ = _cmp
+
+                def __ne__(self, other):
+                    return not self._cmp(other)
+                __hash__ = object.__hash__
+
+            class RS:
+                def __init__(self, seed=None):
+                    made.append(seed)
+
+                def normal(self, loc, scale, size=None):
+                    draws.append((loc, scale, size))
+                    return T.var(f"draw{len(draws)}")
+
+            class Noisy:
+                def __init__(self, n, dtype=None):
+                    self.n, self.real, self.imag, self.added = n, None, None, []
+
+                def __iadd__(self, other):
+                    self.added.append(other)
+                    return self
+            Z, f = T.var("Z_ideal"), T.var("f")
+            data = SimpleNamespace(get_impedances=lambda masked=False: Z, get_frequencies=lambda masked=False: f, get_label=lambda: "lab")
+            ns = {"RandomState": RS, "zeros": Noisy, "len": lambda x: ("len", x), "abs": abs, "ComplexImpedance": "ComplexImpedance",
+                  "DataSet": lambda **kw: built.append(kw) or "DATASET"}
+            O.load(MOCK, ["_add_noise"], ns)
+            seed = Seed() if given else None
+            out = ns["_add_noise"](data, 5.0, seed, "L" if label_given else None)
+            tag = f"[seed {'given' if given else 'None'}{', questions about it answered ' + str(answer) if given else ''}, label {'given' if label_given else 'derived'}]"
+            want_seed = [("seed&", 2 ** 32 - 1)] if given else [None]
+            sess.check("post", [], z3.BoolVal(made == want_seed or (given and made == [("seed%", 2 ** 32)])), 0, label=f"one generator, seeded with the seed truncated to 32 bits iff a seed is given{tag}")
+            sd = 5.0 / 100 * abs(Z)
+            ok_draws = len(draws) == 2 and all(d[0] == 0 and d[2] is None for d in draws)
+            sess.check("post", [], z3.BoolVal(ok_draws), 0, label=f"two draws with mean 0{tag}")
+            if ok_draws:
+                DF.eq_check(sess, f"standard deviation of the real-part noise == noise/100*|Z|{tag}", draws[0][1], sd)
+                DF.eq_check(sess, f"standard deviation of the imaginary-part noise == noise/100*|Z|{tag}", draws[1][1], sd)
+            ok_built = out == "DATASET" and len(built) == 1 and isinstance(built[0].get("impedances"), Noisy)
+            sess.check("post", [], z3.BoolVal(ok_built), 0, label=f"the result is one DataSet built from the noisy impedances{tag}")
+            if ok_built:
+                zn = built[0]["impedances"]
+                sess.check("post", [], z3.BoolVal(zn.real is not None and zn.imag is not None and tv(zn.real).eq(tv(T.var("draw1"))) and tv(zn.imag).eq(tv(T.var("draw2")))
+                                                  and len(zn.added) == 1 and tv(zn.added[0]).eq(tv(Z))), 0, label=f"noisy Z == (first draw + i*second draw) + ideal Z{tag}")
+                sess.check("post", [], z3.BoolVal(tv(built[0]["frequencies"]).eq(tv(f)) and zn.n == ("len", f)), 0, label=f"frequencies are those of the input{tag}")
+                lab = "L" if label_given else "lab (noisy)"
+                sess.check("post", [], z3.BoolVal(built[0].get("label") == lab and built[0].get("path") == f"{lab}.csv"), 0, label=f"label and path{tag}")
+            outcomes.add((given, bool(asked)))
+        sess.check("cover", [], z3.BoolVal({g for g, _ in outcomes} == {True, False}), 0, label="seeded and unseeded cases reached")
+    return (f"{MOCK}:_add_noise", MOCK, "_add_noise", run)
+
+
+_targets_before_add_noise = targets
+
+
+def targets():      # noqa: F811
+    return _targets_before_add_noise() + [target_add_noise()]
+
+
+
+def target_circuit_individual_plots():
+    """cli/circuit.py individual_plots (`pyimpspec circuit --simulate` without --plot-overlay): for every simulated spectrum, in
+    order, the table that is printed / written is format_text(<that spectrum>.to_dataframe(), args) -- whether or not frequencies
+    are marked or annotated (the marked points are a second, smaller data set that only goes to the plot routine) -- and the
+    spectrum itself is what is plotted first."""
+    qual = "individual_plots"
+
+    def run(sess: Session):
+        reached = set()
+        for n_data, mark, annotate, nyquist, backend, output in itertools.product((1, 2), (False, True), (False, True), (True, False), ("agg", "qtagg"), (False, True)):
+            if annotate and not mark:
+                continue
+
+            class Spectrum(FakeData):
+                def get_impedances(self, masked=False):
+                    return Z_of[self.name]
+
+                def get_frequencies(self, masked=False):
+                    return [1.0, 2.0]
+
+            class Zs(list):
+                def __eq__(self, other):
+                    return [True, False]
+                __hash__ = None
+            Z_of = {}
+            ds = [Spectrum(f"sim{i}") for i in range(n_data)]
+            marked = [Spectrum(f"marked{i}") for i in range(n_data)]
+            for d in ds + marked:
+                Z_of[d.name] = Zs([1 + 1j, 2 + 2j])
+            plotted, fmt, printed, written, notes = [], [], [], [], []
+
+            class Fig:
+                def tight_layout(self):
+                    pass
+
+                def savefig(self, path, **k):
+                    written.append(("figure", path))
+
+            class Axis:
+                def annotate(self, text, **k):
+                    notes.append(text)
+
+            def plot(d, **kw):
+                plotted.append((d, dict(kw)))
+                return kw.get("figure") or Fig(), kw.get("axes") or [Axis(), Axis()]
+            other = lambda d, **kw: plot(d, **kw)      # noqa: E731
+            mpl = SimpleNamespace(plot_nyquist=plot if nyquist else other)
+
+            class FP:
+                def __init__(self, path):
+                    self.path = path
+
+                def __enter__(self):
+                    return self
+
+                def __exit__(self, *a):
+                    return False
+
+                def write(self, text):
+                    written.append(("text", self.path, text))
+
+            def format_text(df, a):
+                fmt.append((df, a))
+                return f"<<table{len(fmt)}>>"
+            args = SimpleNamespace(output_name=[f"out{i}" for i in range(n_data)], input=["x"] * n_data, output=output, plot_no_legend=False, plot_colored_axes=False,
+                                   plot_admittance=False, plot_title=True, mark_frequency=[10.0] if mark else [], annotate_frequency=annotate, plot_format=".png",
+                                   output_dir="DIR", output_format="csv", plot_dpi=100)
+            ns = {"mpl": mpl, "get_backend": lambda: backend, "array_all": all, "format_text": format_text, "abspath": lambda p_: p_, "join": lambda *a: "/".join(a),
+                  "get_text_extension": lambda fmt_: ".csv", "open": lambda path, mode="r": FP(path), "plt": SimpleNamespace(close=lambda: None, show=lambda: None),
+                  "len": len, "enumerate": enumerate, "zip": zip, "ComplexImpedances": None, "DataSet": None}
+            O.load(CIRC, [qual], ns)
+            ns[qual](list(ds), list(marked), plot, args, printed.append)
+            tag = f"[spectra={n_data},mark={mark},annotate={annotate},nyquist={nyquist},backend={backend},output={output}]"
+            want_tables = [("dataframe", d.name, 1) for d in ds]
+            sess.check("post", [], z3.BoolVal([f[0] for f in fmt] == want_tables and all(f[1] is args for f in fmt)), 0,
+                       label=f"{tag}one table per simulated spectrum, in order: format_text(spectrum.to_dataframe(), args)")
+            sess.check("post", [], z3.BoolVal(all(not m.calls for m in marked)), 0, label=f"{tag}the marked points are never tabulated")
+            firsts = [p_[0] for p_ in plotted if "figure" not in p_[1]]
+            seconds = [p_[0] for p_ in plotted if "figure" in p_[1]]
+            sess.check("post", [], z3.BoolVal(firsts == ds and seconds == (marked if mark else [])), 0, label=f"{tag}each spectrum is plotted, its marked points (if any) on the same axes")
+            texts = [w[2] for w in written if w[0] == "text"]
+            if output:
+                sess.check("post", [], z3.BoolVal(texts == [f"<<table{k + 1}>>" for k in range(n_data)] and [w[1] for w in written if w[0] == "text"] == [f"DIR/out{k}.csv" for k in range(n_data)]), 0,
+                           label=f"{tag}the table of spectrum i is written to <output name i>.<extension>")
+            elif backend != "agg":
+                sess.check("post", [], z3.BoolVal([p_ for p_ in printed if isinstance(p_, str) and p_.startswith("<<table")] == [f"<<table{k + 1}>>" for k in range(n_data)]), 0,
+                           label=f"{tag}the table of every spectrum is printed once, in order")
+            if annotate and nyquist:
+                sess.check("post", [], z3.BoolVal(len(notes) == 2 * n_data), 0, label=f"{tag}the marked frequencies are annotated")
+            reached.add((mark, annotate and nyquist, output, backend))
+        sess.check("cover", [], z3.BoolVal(len(reached) >= 8), 0, label=f"configurations reached={len(reached)}")
+    return (f"{CIRC}:{qual}", CIRC, qual, run)
+
+
+_targets_before_circuit_plots = targets
+
+
+def targets():      # noqa: F811
+    return _targets_before_circuit_plots() + [target_circuit_individual_plots()]
